@@ -465,6 +465,21 @@ func (w *World) implementers(iface *types.Interface, key string, ifaceT types.Ty
 			}
 			if types.Implements(t, iface) {
 				out = append(out, t)
+				// a generic container that is also handled through pointers (it has
+				// pointer-receiver methods: *MapSet[K]) may be stored in the interface
+				// as *T as well. For the non-generic value types of the repository
+				// (types.Long, types.Record, ...) the closed world assumes storage by
+				// value, as every constructor in the repository does.
+				if n, ok := t.(*types.Named); ok && n.TypeArgs() != nil && n.TypeArgs().Len() > 0 {
+					for i := 0; i < n.NumMethods(); i++ {
+						if sg, ok := n.Method(i).Type().(*types.Signature); ok && sg.Recv() != nil {
+							if _, isPtr := sg.Recv().Type().(*types.Pointer); isPtr {
+								out = append(out, types.NewPointer(t))
+								break
+							}
+						}
+					}
+				}
 			} else if types.Implements(types.NewPointer(t), iface) {
 				out = append(out, types.NewPointer(t))
 			}
